@@ -221,7 +221,28 @@ func dischargeAll(items []workItem, timeoutMs, workers int) {
 		panic(err)
 	}
 	defer os.RemoveAll(dir)
-	// dischargeBatches(items, dir, timeoutMs, workers)
+	// expand multi-goal obligations into independent sub-queries
+	type unit struct {
+		fr     *FuncResult
+		o      *Obligation // the query actually run
+		parent *Obligation
+		k      int
+	}
+	var units []unit
+	for _, it := range items {
+		o := it.o
+		if o.Solver == "syntactic" {
+			continue
+		}
+		if len(o.Subs) > 1 {
+			for k, sg := range o.Subs {
+				tmp := &Obligation{Name: o.Name, Prefix: sg.Prefix, Cond: sg.Cond, Goal: sg.Goal, Extra: sg.Extra, Expect: o.Expect, NoStatics: o.NoStatics, TimeoutMs: o.TimeoutMs}
+				units = append(units, unit{it.fr, tmp, o, k})
+			}
+			continue
+		}
+		units = append(units, unit{it.fr, o, nil, 0})
+	}
 	var wg sync.WaitGroup
 	ch := make(chan int)
 	for w := 0; w < workers; w++ {
@@ -229,15 +250,37 @@ func dischargeAll(items []workItem, timeoutMs, workers int) {
 		go func() {
 			defer wg.Done()
 			for i := range ch {
-				discharge(items[i].fr, items[i].o, dir, timeoutMs, i)
+				discharge(units[i].fr, units[i].o, dir, timeoutMs, i)
 			}
 		}()
 	}
-	for i := range items {
+	for i := range units {
 		ch <- i
 	}
 	close(ch)
 	wg.Wait()
+	// aggregate
+	agg := map[*Obligation][]unit{}
+	for _, u := range units {
+		if u.parent != nil {
+			agg[u.parent] = append(agg[u.parent], u)
+		}
+	}
+	for p, us := range agg {
+		p.Status, p.Solver, p.Seconds = "unsat", "", 0
+		for _, u := range us {
+			if u.o.Seconds > p.Seconds {
+				p.Seconds = u.o.Seconds
+			}
+			if p.Solver == "" {
+				p.Solver = u.o.Solver
+			}
+			if u.o.Status != "unsat" && p.Status == "unsat" {
+				p.Status, p.Solver, p.Model = u.o.Status, u.o.Solver, u.o.Model
+				p.Output = fmt.Sprintf("sub-goal %d of %d:\n%s", u.k+1, len(us), u.o.Output)
+			}
+		}
+	}
 }
 
 type workItem struct {
